@@ -12,7 +12,10 @@ EXPLANATION = ("TYPESTATE/ORDER rules on the durability protocol, decided for ev
                "after the coins flush; FlatFileSeq::Flush succeeds only past FileCommit; "
                "(3) WriteBlock/WriteBlockUndo publish a position only after the data was written and the file closed without error; AcceptBlock "
                "records the position only after WriteBlock; (4) start-up: LoadChainTip only past a successful ReplayBlocks, ReplayBlocks succeeds "
-               "only for 0 or 2 head blocks and finishes with SetBestBlock(new head)+Flush, LoadChainTip's tip is the coins view's best block.")
+               "only for 0 or 2 head blocks and finishes with SetBestBlock(new head)+Flush, LoadChainTip's tip is the coins view's best block; "
+               "(5) replay is idempotent: RollforwardBlock fails only when the block cannot be read, never leaves its loops early, re-adds outputs with "
+               "overwrite checking on for every transaction, and the roll-back half of ReplayBlocks stops only on a read failure or DISCONNECT_FAILED "
+               "(DISCONNECT_UNCLEAN is tolerated).")
 ASSUMPTIONS = ["LevelDB applies one WriteBatch atomically and in order (library semantics)",
                "FileCommit / leveldb sync=true make preceding writes durable (OS semantics)",
                "CCoinsViewCache::Flush/Sync reach CCoinsViewDB::BatchWrite (virtual dispatch through the view stack)"]
@@ -378,9 +381,104 @@ def startup(ctx, P):
                "the chain tip loaded at start-up is the block index entry of the coins view's best block", ok, s.where, None if ok else {"tip": show(tip)})
 
 
+# --------------------------------------------------------------------------------------------- (5) replay is idempotent
+def replay_idempotent(ctx, P):
+    """After a crash between the batches of one coins flush, the database holds a mixture of old and new coins: the replay must tolerate
+    inputs that are already gone and outputs that already exist, and fail only when a block cannot be read."""
+    import re
+    rf = ctx.used(P.fn("Chainstate::RollforwardBlock"))
+    sub = naming(rf, P)
+    read = re.compile(r".*ReadBlock\(\w+, \*pindex\)")
+    leaves = stmt_sites(rf, lambda st: st.get("k") in ("ret", "throw"), P)
+    nfail = 0
+    for s in leaves:
+        if s.stmt.get("k") == "ret" and match(["bool", True], s.stmt.get("v")):
+            continue
+        nfail += 1
+        fb, mp, un = F.bind_atoms(s.formula(sub), {"READ": read})
+        cex = F.counterexample(fb, F.parse("!READ"))
+        ctx.ob("RollforwardBlock/fails-only-on-read@L%s" % s.line, "LADDER",
+               "RollforwardBlock fails only when the block cannot be read from disk: a coin that is already spent (or an output that already exists) "
+               "after a partially written flush must not abort the replay", cex is None and "READ" in mp.values(), s.where,
+               None if cex is None else {"path": F.fshow(s.formula(sub))[:600], "counterexample": cex})
+    ctx.floor("RollforwardBlock failure exits", nfail, 1)
+    loops = [st for st in stmts(rf.body) if st.get("k") in ("for", "foreach", "while", "do")]
+    early = [st for l in loops for st in stmts(l.get("b")) if st.get("k") in ("break", "continue", "ret", "throw")]
+    ctx.ob("RollforwardBlock/no-early-exit", "LADDER", "the replay loops of RollforwardBlock (transactions, inputs) are never left early: every transaction of the block is re-applied",
+           bool(loops) and not early, rf.where, {"early_exits": [st.get("l") for st in early]})
+    spend = sites(rf, mcall_named("CCoinsViewCache::SpendCoin"), P)
+    ctx.floor("RollforwardBlock SpendCoin sites", len(spend), 1)
+    adds = sites(rf, any_call_named("AddCoins"), P)
+    ctx.floor("RollforwardBlock AddCoins sites", len(adds), 1)
+    txloops = [st for st in loops if st.get("k") == "foreach" and match([".", ["local", ANY], "CBlock::vtx"], st.get("range"))]
+    for s in adds:
+        a = call_args(s.expr)
+        ok = len(a) >= 4 and match(["bool", True], undefarg(a[3])) and match(["param", "inputs"], a[0]) and match([".", ["param", "pindex"], "CBlockIndex::nHeight"], a[2])
+        ctx.ob("RollforwardBlock/AddCoins-overwrite@L%s" % s.line, "EFFECT", "RollforwardBlock re-adds outputs with check_for_overwrite = true (an output already present "
+               "from a completed batch is tolerated), at the block's height, into the replay view", ok, s.where, {"args": [show(x) for x in a]})
+        # once per transaction, unconditionally
+        inl = [l for l in txloops if l.get("l") <= s.line <= max(x.get("l") or 0 for x in stmts(l))]
+        uncond = False
+        if len(inl) == 1:
+            fm = F.mk_and([g.formula(sub) for g in s.guards if (g.line or 0) >= inl[0].get("l")])
+            free = fm
+            uncond = F.counterexample(F.T, _forget_done(free)) is None and not [g for g in s.guards if (g.line or 0) >= inl[0].get("l") and g.kind in ("if", "case", "loop")]
+        ctx.ob("RollforwardBlock/AddCoins-every-tx@L%s" % s.line, "EFFECT", "AddCoins is reached for every transaction of the replayed block (not conditional on the result of spending its inputs)",
+               uncond, s.where)
+    # ---- the roll-back half of ReplayBlocks: UNCLEAN is tolerated
+    rb = ctx.used(P.fn("Chainstate::ReplayBlocks"))
+    sub = naming(rb, P)
+    dis = sites(rb, mcall_named("Chainstate::DisconnectBlock"), P)
+    if len(dis) != 1:
+        raise AnalysisBroken("ReplayBlocks: DisconnectBlock site not unique")
+    W = [st for st in stmts(rb.body) if st.get("k") in ("while", "for", "do") and st.get("l") <= dis[0].line <= max(x.get("l") or 0 for x in stmts(st))]
+    if not W:
+        raise AnalysisBroken("ReplayBlocks: roll-back loop not found")
+    W = sorted(W, key=lambda st: st.get("l"))[-1]
+    lo, hi = W.get("l"), max(x.get("l") or 0 for x in stmts(W))
+    resn = [st["n"] for st in stmts(W) if st.get("k") == "decl" and st.get("i") is dis[0].expr]
+    call = re.escape(show(dis[0].expr)).replace("pindexOld", r"pindexOld(#\d+)?")
+    lhs = "(?:%s)" % "|".join([re.escape(n) for n in resn] + [".*DisconnectBlock\\(.*\\)"])
+    atoms = {"READ": re.compile(r".*ReadBlock\(\w+, \*\w+\)"),
+             "FAILED": re.compile(r"(%s == DISCONNECT_FAILED|DISCONNECT_FAILED == %s)" % (lhs, lhs))}
+    n = 0
+    for s in stmt_sites(rb, lambda st: st.get("k") in ("ret", "throw", "break"), P):
+        if not (lo <= (s.line or 0) <= hi):
+            continue
+        n += 1
+        fm = F.mk_and([g.formula(sub) for g in s.guards if (g.line or 0) >= lo and g.kind != "loop"])
+        fb, mp, un = F.bind_atoms(fm, atoms)
+        cex = F.counterexample(fb, F.parse("!READ || FAILED"))
+        ctx.ob("ReplayBlocks/rollback-tolerates-unclean@L%s" % s.line, "LADDER",
+               "the roll-back half of ReplayBlocks stops only if a block cannot be read or DisconnectBlock returned DISCONNECT_FAILED; DISCONNECT_UNCLEAN "
+               "(a coin already restored/removed by a completed batch) is tolerated", cex is None, s.where,
+               None if cex is None else {"guard": F.fshow(fm)[:500], "unbound": un[:6], "counterexample": cex})
+    ctx.floor("ReplayBlocks roll-back failure exits", n, 2)
+
+
+def _forget_done(f):
+    """done(loop@..) atoms are facts about completed inner loops, not conditions: treat them as true."""
+    return _subst_true(f, lambda k: k.startswith("done(loop@"))
+
+
+def _subst_true(f, pred):
+    t = f[0]
+    if t == "atom":
+        return F.T if pred(f[1]) else f
+    if t == "not":
+        return F.mk_not(_subst_true(f[1], pred))
+    if t == "and":
+        return F.mk_and([_subst_true(x, pred) for x in f[1]])
+    if t == "or":
+        return F.mk_or([_subst_true(x, pred) for x in f[1]])
+    return f
+
+
+
 def check(ctx):
     P = ctx.program(UNITS)
     batch_write(ctx, P)
     flush_state(ctx, P)
     writers(ctx, P)
     startup(ctx, P)
+    replay_idempotent(ctx, P)
